@@ -393,8 +393,9 @@ template <class O> static void check_range(const AddressRange<typename O::A>& r,
     const std::string tag = std::string("iteration/") + nm + "/" + (hosts ? "hosts" : "all");
     size_t i = 0; bool bad = false; bool call_end_each_time = rng.chance(1, 2);
     typename AddressRange<A>::const_iterator e = r.end();
-    for (typename AddressRange<A>::const_iterator it = r.begin(); call_end_each_time ? it != r.end() : it != e; ++it) {
-        if (i >= STEP_CAP) { violation(tag + "/non-terminating/" + (last == mx ? "ends-at-all-ones" : "inner"), what + ": walk of [" + hx(first, W) + "," + hx(last, W) + "] (" + std::to_string((unsigned long)n) + " addresses expected) stopped after " + std::to_string(STEP_CAP) + " steps"); bad = true; break; }
+    const bool post = rng.chance(1, 3); if (post) cnt("walks:with-post-increment");      // it++ and ++it must walk alike
+    for (typename AddressRange<A>::const_iterator it = r.begin(); call_end_each_time ? it != r.end() : it != e; post ? (void)it++ : (void)++it) {
+        if (i >= STEP_CAP) { violation(tag + "/non-terminating/" + (last == mx ? "ends-at-all-ones" : "inner"), what + ": walk of [" + hx(first, W) + "," + hx(last, W) + "] (" + std::to_string((unsigned long)n) + " addresses expected) stopped after " + std::to_string(STEP_CAP) + " steps" + (post ? " (walking with it++)" : "")); bad = true; break; }
         u128 got = O::val(*it);
         if (!bad && i >= (size_t)n) { violation(tag + "/overrun", what + ": walk of [" + hx(first, W) + "," + hx(last, W) + "] goes on after its " + std::to_string((unsigned long)n) + " addresses, yielding " + hx(got, W)); bad = true; }
         if (!bad && got != start + i) { violation(tag + "/wrong-value", what + ": walk of [" + hx(first, W) + "," + hx(last, W) + "] step " + std::to_string(i) + " yields " + hx(got, W) + ", expected " + hx(start + i, W)); bad = true; }
